@@ -370,7 +370,11 @@ public:
    /** Convenience method:  Removes the first key/value mapping in the table.  (O(1) removal time)
     *  @return B_NO_ERROR if the first mapping was removed, or B_DATA_NOT_FOUND if this table was already empty.
     */
-   status_t RemoveFirst() {return RemoveEntryByIndex(_iterHeadIdx, NULL);}
+   status_t RemoveFirst()
+   {
+      HashtableEntryBase * e = this->IndexToEntryChecked(_iterHeadIdx);
+      return e ? RemoveEntry(e, NULL) : B_DATA_NOT_FOUND;
+   }
 
    /** Convenience method:  Removes the first key/value mapping in the table and places the removed key
     *  into (setRemovedKey).  (O(1) removal time)
